@@ -18,7 +18,9 @@ LEVEL_TEXT = ("Coq theorems over a Gallina model of Zeroconf::handle_query (all 
               "multisets per section with destination, id, flags and echoed questions, a specification written from "
               "the property text extended by the two named deviations that remain (four were repaired in /repo and "
               "are now part of the positive theorems); outside the deviation classes it equals the text itself; each "
-              "deviation is proved to be one by a witness.  The model is tied to the Rust on every run by "
+              "deviation is proved to be one by a witness; for EVERY input (no hypothesis) every record of a response is "
+              "proved to be a record of a listed service that is Announced on the receiving interface, also in every "
+              "state of the daemon model.  The model is tied to the Rust on every run by "
               "regenerated constants/guards (Gen/ParamsResponder.v) and by a differential run of the real daemon in "
               "the simulated world (injected queries, captured packets parsed independently); the checker chk_C06 of "
               "the theorems is executed on the implementation's packets")
